@@ -17,6 +17,8 @@ produce; every node has at least the two bytes `data[1]` needs (otherwise the re
 the sync primitives are linearizable and order memory as the Go memory model says (the model's atomic steps are exactly
 the accesses to them).
 -/
+set_option linter.unusedSimpArgs false
+
 namespace C15
 open Accum
 
@@ -74,6 +76,14 @@ theorem groups_partition (c : Car) (ig : List UInt8) (k : UInt8) (skip : Nat) :
   · intro g hg
     have hg' : g ∈ sends c ig k skip := (List.mem_filter.mp hg).1
     exact go_kinds ig k c.secs c.header.length skip [] (by intro o ho; cases ho) g hg'
+
+/-- **Together with exactly the non-ignored objects stored since the previous block.**  The groups put on the channel
+    are the kept objects (flush kind or not ignored, after the skipped ones, in file order) cut after every object of
+    the flush kind, the remainder being the final group; the callbacks are these groups except an empty final one. -/
+theorem groups_are_cuts (c : Car) (ig : List UInt8) (k : UInt8) (skip : Nat) :
+    run c ig k skip = (splitAfter k [] ((c.objs.drop skip).filter (keep ig k))).filter Group.nonEmpty := by
+  unfold run sends Car.objs
+  rw [go_split]
 
 /-- non-vacuity: two blocks with children of three kinds, an ignored kind, trailing objects -/
 def exCar : Car :=
